@@ -812,4 +812,92 @@ theorem parseField_map (k : String) (abs : Bool) (first : String) (rest : List S
   rw [hty2]
   simp only [fieldTail_toks, Option.map_some, mkField_plain, mapTy]
 
+/-! ## the same with any tail (`= number [options];`) -/
+
+theorem fieldAfterLabel_gen (t0 : PTok) (ht0 : t0.cm = Cm.none) (label : String) (abs : Bool) (first : String)
+    (rest : List String) (name : String) (l : Nat) (hl : t0.line = l)
+    (tl : List PTok) (hf : IsIdent first) (hkw : abs = false → first ≠ "map") :
+    fieldAfterLabel t0 label (tyToks abs first rest l ++ T (.ident name) l :: tl) =
+      (fieldTail tl).map (mkField .field l Cm.none label (tyStr abs first rest) name) := by
+  have hty := typeName_toks abs first rest l (T (.ident name) l :: tl) hf.ne_empty
+    (by intro t r h; simp only [List.cons.injEq] at h; rw [← h.1]; simp [T])
+  cases abs with
+  | true =>
+    simp only [tyToks, if_true, List.cons_append, List.nil_append, T] at hty ⊢
+    simp only [fieldAfterLabel, plainField]
+    rw [hty]
+    simp only [hl, ht0]
+  | false =>
+    have h3 := hkw rfl
+    simp only [tyToks, Bool.false_eq_true, if_false, List.cons_append, List.nil_append, T] at hty ⊢
+    simp only [fieldAfterLabel, plainField]
+    split
+    · rename_i s l1 c1 c l2 c2 r heq
+      have hs : s = first := by
+        simp only [List.cons.injEq, PTok.mk.injEq, Tok.ident.injEq] at heq
+        exact heq.1.1.symm
+      subst hs
+      have hm : (s == "map" && c == '<') = false := by simp [h3]
+      rw [hm, ← heq, hty]
+      simp only [Bool.false_eq_true, if_false, hl, ht0]
+    · rw [hty]
+      simp only [hl, ht0]
+
+theorem parseField_gen (label : String) (hlab : label = "" ∨ label = "repeated " ∨ label = "optional ")
+    (abs : Bool) (first : String) (rest : List String) (name : String) (l : Nat) (tl : List PTok)
+    (hf : IsIdent first) (hkw : abs = false → first ≠ "map")
+    (hkw2 : label = "" → abs = false → first ≠ "repeated" ∧ first ≠ "optional") :
+    parseField (labelToks label l ++ tyToks abs first rest l ++ T (.ident name) l :: tl) =
+      (fieldTail tl).map (mkField .field l Cm.none label (tyStr abs first rest) name) := by
+  rcases hlab with h | h | h
+  · subst h
+    have e : labelToks "" l = [] := by simp [labelToks]
+    rw [e, List.nil_append]
+    cases abs with
+    | true =>
+      have := fieldAfterLabel_gen (T (.sym '.') l) rfl "" true first rest name l rfl tl hf hkw
+      simp only [tyToks, if_true, List.cons_append, List.nil_append, List.append_assoc] at this ⊢
+      simp only [parseField, splitLabel, T] at this ⊢
+      exact this
+    | false =>
+      obtain ⟨h1, h2⟩ := hkw2 rfl rfl
+      have := fieldAfterLabel_gen (T (.ident first) l) rfl "" false first rest name l rfl tl hf hkw
+      simp only [tyToks, Bool.false_eq_true, if_false, List.cons_append, List.nil_append, List.append_assoc] at this ⊢
+      simp only [parseField, splitLabel, T, beq_iff_eq, h1, h2, if_false] at this ⊢
+      exact this
+  · subst h
+    have e : labelToks "repeated " l = [T (.ident "repeated") l] := by simp [labelToks]
+    rw [e]
+    have := fieldAfterLabel_gen (T (.ident "repeated") l) rfl "repeated " abs first rest name l rfl tl hf hkw
+    simp only [List.cons_append, List.nil_append, List.append_assoc, parseField, splitLabel, T, beq_self_eq_true, if_true] at this ⊢
+    exact this
+  · subst h
+    have e : labelToks "optional " l = [T (.ident "optional") l] := by simp [labelToks]
+    rw [e]
+    have := fieldAfterLabel_gen (T (.ident "optional") l) rfl "optional " abs first rest name l rfl tl hf hkw
+    have hne : ("optional" == "repeated") = false := by decide
+    simp only [List.cons_append, List.nil_append, List.append_assoc, parseField, splitLabel, T, hne, beq_self_eq_true,
+      Bool.false_eq_true, if_false, if_true] at this ⊢
+    exact this
+
+theorem parseField_map_gen (k : String) (abs : Bool) (first : String) (rest : List String) (name : String)
+    (l : Nat) (tl : List PTok) (hk : IsIdent k) (hf : IsIdent first) :
+    parseField (T (.ident "map") l :: T (.sym '<') l :: (tyToks false k [] l ++ T (.sym ',') l ::
+      (tyToks abs first rest l ++ T (.sym '>') l :: T (.ident name) l :: tl))) =
+      (fieldTail tl).map (mkField .field l Cm.none "" (mapTy k abs first rest) name) := by
+  have hty1 := typeName_toks false k [] l (T (.sym ',') l ::
+    (tyToks abs first rest l ++ T (.sym '>') l :: T (.ident name) l :: tl)) hk.ne_empty
+    (by intro t r h; simp only [List.cons.injEq] at h; rw [← h.1]; simp [T])
+  have hty2 := typeName_toks abs first rest l (T (.sym '>') l :: T (.ident name) l :: tl) hf.ne_empty
+    (by intro t r h; simp only [List.cons.injEq] at h; rw [← h.1]; simp [T])
+  simp only [List.cons_append, List.append_assoc, T] at hty1 hty2 ⊢
+  have hne1 : ("map" == "repeated") = false := by decide
+  have hne2 : ("map" == "optional") = false := by decide
+  simp only [parseField, splitLabel, hne1, hne2, Bool.false_eq_true, if_false, fieldAfterLabel, beq_self_eq_true,
+    Bool.and_self, if_true, mapField]
+  rw [hty1]
+  simp only []
+  rw [hty2]
+  simp only [mapTy]
+
 end J5V.Print.Grammar
